@@ -1,4 +1,6 @@
 import PicoProofs.FieldNumLemmas
+import PicoProofs.GoTieSmall
+import PicoProofs.GoTieDecoder
 import PicoProofs.Tie
 import PicoModel.Decoder
 /-
@@ -39,6 +41,24 @@ theorem C19_truncated_message_names_field {σ} (field : Int) (fn : Dec.DecM σ) 
     (hbad : (Wire.consumeBytes d.cur.buffer).2 < 0) :
     Dec.message field fn d s = .ok (Dec.fail d field "unable to parse Bytes", s) := by
   simp [Dec.message, hp, hw, hbad]
+
+/-- the same two facts stated about the Go source itself: `GoSrc.Small.fieldNumberString` and
+`GoSrc.Small.parseErrorError` are the statement-level translations of `FieldNumber.String`
+(message.go) and `parseError.Error` (decoder.go), regenerated from the working tree on every run:
+the hand-rolled itoa over the 11-byte array never indexes out of range and yields the decimal form,
+for every int32 -/
+theorem C19_source_string_is_decimal (n : Int) (h : -2147483648 ≤ n ∧ n ≤ 2147483647) :
+    GoSrc.Small.fieldNumberString n = .ok (toString n) := GoTie.S.fieldNumberString_decimal n h
+
+theorem C19_source_error_text (n : Int) (h : -2147483648 ≤ n ∧ n ≤ 2147483647) (msg : String) :
+    GoSrc.Small.parseErrorError (n, msg) = .ok ("failed while parsing " ++ toString n ++ ": " ++ msg) :=
+  GoTie.S.parseErrorError_eq n h msg
+
+/-- … and `Decoder.fail` as translated from decoder.go latches exactly the (field, message) pair that
+`parseError.Error` renders -/
+theorem C19_source_fail_latches (field : Int) (msg : String) (d : Dec.Dec) :
+    ∃ d', GoSrc.Decoder.fail field msg d = .ok d' ∧ d'.err = some (field, msg) ∧ d'.cur.pendingField = -1 :=
+  ⟨Dec.fail d field msg, rfl, rfl, rfl⟩
 
 example : fieldString (-2147483648) = .ok "-2147483648" := fieldString_decimal _ (by decide)
 example : fieldString 1099999999 = .ok "1099999999" := fieldString_decimal _ (by decide)
